@@ -108,6 +108,16 @@ type c28Pool struct {
 	CIDR             string
 	Mode             string // vxlan-always, vxlan-cross, ipip-always, ipip-cross, none
 	DisableBGPExport bool
+	// Flags that must not change who programs the pool's cluster routes.  Disabled only stops
+	// new IPAM assignments ("Calico IPAM will not assign addresses from this pool"): existing
+	// blocks keep their workloads and still need routes, and nothing on Felix's side
+	// (EncapsulationCalculator/Resolver, L3RouteResolver, the route managers) looks at it.
+	// LoadBalancer-only pools are not generated: Felix deliberately gives them no route type.
+	Disabled     bool
+	NATOutgoing  bool
+	Manual       bool   // assignmentMode: Manual
+	NodeSelector string // v3 only
+	Uses         string // "", "workload", "tunnel", "both"
 }
 
 var c28Modes = []string{"vxlan-always", "vxlan-cross", "ipip-always", "ipip-cross", "none"}
@@ -125,7 +135,12 @@ func (p c28Pool) class() string {
 func (p c28Pool) v6() bool { return strings.Contains(p.CIDR, ":") }
 
 func (p c28Pool) model() *model.IPPool {
-	mp := &model.IPPool{CIDR: cnet.MustParseCIDR(p.CIDR), DisableBGPExport: p.DisableBGPExport}
+	mp := &model.IPPool{CIDR: cnet.MustParseCIDR(p.CIDR), DisableBGPExport: p.DisableBGPExport,
+		Disabled: p.Disabled, Masquerade: p.NATOutgoing, IPAM: true, AssignmentMode: v3.Automatic}
+	if p.Manual {
+		mp.AssignmentMode = v3.Manual
+	}
+	mp.AllowedUses = p.uses()
 	// The v3->v1 conversion always fills in both modes ("never" when disabled).
 	mp.IPIPMode, mp.VXLANMode = encap.Never, encap.Never
 	switch p.Mode {
@@ -141,11 +156,31 @@ func (p c28Pool) model() *model.IPPool {
 	return mp
 }
 
+func (p c28Pool) uses() []v3.IPPoolAllowedUse {
+	switch p.Uses {
+	case "workload":
+		return []v3.IPPoolAllowedUse{v3.IPPoolAllowedUseWorkload}
+	case "tunnel":
+		return []v3.IPPoolAllowedUse{v3.IPPoolAllowedUseTunnel}
+	case "both":
+		return []v3.IPPoolAllowedUse{v3.IPPoolAllowedUseWorkload, v3.IPPoolAllowedUseTunnel}
+	}
+	return nil
+}
+
 func (p c28Pool) apiPool(i int) *v3.IPPool {
 	ap := v3.NewIPPool()
 	ap.Name = fmt.Sprintf("pool-%d", i)
 	ap.Spec.CIDR = p.CIDR
 	ap.Spec.DisableBGPExport = p.DisableBGPExport
+	ap.Spec.Disabled = p.Disabled
+	ap.Spec.NATOutgoing = p.NATOutgoing
+	ap.Spec.NodeSelector = p.NodeSelector
+	ap.Spec.AllowedUses = p.uses()
+	if p.Manual {
+		m := v3.Manual
+		ap.Spec.AssignmentMode = &m
+	}
 	ap.Spec.IPIPMode, ap.Spec.VXLANMode = v3.IPIPModeNever, v3.VXLANModeNever
 	switch p.Mode {
 	case "vxlan-always":
@@ -173,11 +208,47 @@ type c28Felix struct {
 
 // c28FelixSide returns Felix's view, or a description of an internal disagreement between its
 // start-up path and its calculation-graph path (both must see the same Encapsulation).
-func c28FelixSide(setting c28Setting, source felixconfig.Source, pools []c28Pool) (c28Felix, string) {
+// c28Layer: one configuration source that sets ProgramClusterRoutes.
+type c28Layer struct {
+	Source felixconfig.Source
+	Value  string
+}
+
+// Felix's configuration sources that can carry the setting, lowest priority first (the order
+// the Felix daemon loads them in is env, file, then the datastore ones; priority is fixed).
+var c28Sources = []felixconfig.Source{felixconfig.DatastoreGlobal, felixconfig.DatastorePerSelector,
+	felixconfig.DatastorePerHost, felixconfig.ConfigFile, felixconfig.EnvironmentVariable}
+
+// c28TopSetting: the setting Felix must act on = the one from the highest-priority source that
+// sets the key (C27's rule); no layer = absent.
+func c28TopSetting(layers []c28Layer) c28Setting {
+	best := -1
+	var out c28Setting
+	for _, l := range layers {
+		for i, s := range c28Sources {
+			if s == l.Source && i > best {
+				best, out = i, c28Setting{"value", l.Value}
+			}
+		}
+	}
+	if best < 0 {
+		return c28Setting{Kind: "absent"}
+	}
+	return out
+}
+
+func c28FelixSide(layers []c28Layer, pools []c28Pool) (c28Felix, string) {
 	cfg := felixconfig.New()
-	if setting.Kind == "value" {
-		if _, err := cfg.UpdateFrom(map[string]string{"ProgramClusterRoutes": setting.Value}, source); err != nil {
-			return c28Felix{}, fmt.Sprintf("Felix rejected ProgramClusterRoutes=%q outright: %v", setting.Value, err)
+	// Apply in the daemon's order: local sources first, then global, per-selector, per-host.
+	for _, src := range []felixconfig.Source{felixconfig.EnvironmentVariable, felixconfig.ConfigFile,
+		felixconfig.DatastoreGlobal, felixconfig.DatastorePerSelector, felixconfig.DatastorePerHost} {
+		for _, l := range layers {
+			if l.Source != src {
+				continue
+			}
+			if _, err := cfg.UpdateFrom(map[string]string{"ProgramClusterRoutes": l.Value}, src); err != nil {
+				return c28Felix{}, fmt.Sprintf("Felix rejected ProgramClusterRoutes=%q outright: %v", l.Value, err)
+			}
 		}
 	}
 	// start-up path: daemon.go lists the v3 IPPools and feeds them to the calculator
@@ -323,9 +394,10 @@ type c28Outcome struct {
 	Lines     []string // per pool: who programs it
 }
 
-func c28Check(fs, bs c28Setting, src felixconfig.Source, pools []c28Pool, localSubnet string) (c28Outcome, string) {
+func c28Check(layers []c28Layer, bs c28Setting, pools []c28Pool, localSubnet string) (c28Outcome, string) {
 	var out c28Outcome
-	felix, bad := c28FelixSide(fs, src, pools)
+	fs := c28TopSetting(layers)
+	felix, bad := c28FelixSide(layers, pools)
 	if bad != "" {
 		return out, bad
 	}
@@ -336,8 +408,8 @@ func c28Check(fs, bs c28Setting, src felixconfig.Source, pools []c28Pool, localS
 	fe, be := c28Effective(fs, c28FelixDefault), c28Effective(bs, c28BGPDefault)
 	out.Supported = c28Supported[fe] == be
 	describe := func() string {
-		return fmt.Sprintf("FelixConfiguration.programClusterRoutes=%v (acts as %s)  BGPConfiguration.programClusterRoutes=%v (acts as %s)\npools %+v\nFelix: ProgramIPIP=%v ProgramNoEncap=%v Encapsulation=%+v\nBIRD v4 kernel filter:\n%s\nBIRD v6 kernel filter:\n%s",
-			fs, fe, bs, be, pools, felix.cfg.ProgramIPIPClusterRoutes(), felix.cfg.ProgramNoEncapClusterRoutes(), felix.enc,
+		return fmt.Sprintf("Felix ProgramClusterRoutes by source %+v => effective %v (acts as %s)  BGPConfiguration.programClusterRoutes=%v (acts as %s)\npools %+v\nFelix: ProgramIPIP=%v ProgramNoEncap=%v Encapsulation=%+v\nBIRD v4 kernel filter:\n%s\nBIRD v6 kernel filter:\n%s",
+			layers, fs, fe, bs, be, pools, felix.cfg.ProgramIPIPClusterRoutes(), felix.cfg.ProgramNoEncapClusterRoutes(), felix.enc,
 			strings.Join(filters[4], "\n"), strings.Join(filters[6], "\n"))
 	}
 	for _, p := range pools {
@@ -401,7 +473,7 @@ func c28WithNodeName(f func()) {
 func TestVerifC28Exhaustive(t *testing.T) {
 	ev.Quiet()
 	rec := ev.New("C28", "pairs",
-		"every FelixConfiguration setting (4 values, absent, 3 unrecognised) x every BGPConfiguration setting (the same + no BGPConfiguration object) x {each single pool mode x v4/v6 (IPIP is v4-only), the pool set with all modes}; non-trivial = supported pairing (after defaults); distinct = (felix, bgp, pool set)",
+		"every Felix setting (4 values, absent, 3 unrecognised) x 3 source layerings (alone; per-node above a global Disabled; environment above file and global values) x every BGPConfiguration setting (the same + no BGPConfiguration object) x {each single pool mode x v4/v6 (IPIP is v4-only), plain and with every ownership-neutral flag set (disabled etc.), two pool sets with all modes}; non-trivial = supported pairing (after defaults); distinct = (felix, bgp, pool set)",
 		"IPv4 local subnet is known to confd (without it confd emits no IPv4 kernel filter at all, a documented limitation)",
 		"Felix's IPv6 support is enabled; the deprecated VXLANEnabled/IpInIpEnabled overrides are unset")
 	defer rec.Write()
@@ -418,28 +490,44 @@ func TestVerifC28Exhaustive(t *testing.T) {
 		{CIDR: "10.69.0.0/16", Mode: "none"}, {CIDR: "192.168.0.0/18", Mode: "none", DisableBGPExport: true},
 		{CIDR: "fd00:65::/64", Mode: "vxlan-always"}, {CIDR: "fd00:66::/64", Mode: "vxlan-cross"}, {CIDR: "fd00:67::/64", Mode: "none"},
 	})
+	// the same classes with every ownership-neutral flag set (a pool being migrated away from:
+	// disabled, but its blocks are still live)
+	for _, m := range c28Modes {
+		poolSets = append(poolSets, []c28Pool{{CIDR: "10.65.0.0/16", Mode: m, Disabled: true, NATOutgoing: true, Manual: true, NodeSelector: "!all()", Uses: "workload"}})
+		if !strings.HasPrefix(m, "ipip") {
+			poolSets = append(poolSets, []c28Pool{{CIDR: "fd00:65::/64", Mode: m, Disabled: true}})
+		}
+	}
+	poolSets = append(poolSets, []c28Pool{
+		{CIDR: "10.65.0.0/16", Mode: "vxlan-always", Disabled: true}, {CIDR: "10.67.0.0/16", Mode: "ipip-always", Disabled: true},
+		{CIDR: "10.68.0.0/16", Mode: "ipip-cross"}, {CIDR: "10.69.0.0/16", Mode: "none", Disabled: true}, {CIDR: "10.70.0.0/16", Mode: "none"},
+		{CIDR: "fd00:65::/64", Mode: "vxlan-cross", Disabled: true}, {CIDR: "fd00:67::/64", Mode: "none", Disabled: true},
+	})
+	// How the Felix setting under test reaches Felix: alone in the global FelixConfiguration,
+	// or in a higher-priority source above other (valid, non-default) values.
+	layerings := []func(v string) []c28Layer{
+		func(v string) []c28Layer { return []c28Layer{{felixconfig.DatastoreGlobal, v}} },
+		func(v string) []c28Layer {
+			return []c28Layer{{felixconfig.DatastorePerHost, v}, {felixconfig.DatastoreGlobal, "Disabled"}}
+		},
+		func(v string) []c28Layer {
+			return []c28Layer{{felixconfig.EnvironmentVariable, v}, {felixconfig.ConfigFile, "EnabledNoEncapOnly"}, {felixconfig.DatastoreGlobal, "Enabled"}}
+		},
+	}
 	n, supported := 0, 0
 	c28WithNodeName(func() {
 		for _, fs := range c28FelixSettings() {
-			for _, bs := range c28BGPSettings() {
-				for i, pools := range poolSets {
-					out, bad := c28Check(fs, bs, felixconfig.DatastoreGlobal, pools, "10.0.0.0/24")
-					if bad != "" {
-						c28Fail(t, bad)
+			for li, mk := range layerings {
+				var layers []c28Layer
+				if fs.Kind == "value" {
+					layers = mk(fs.Value)
+				} else if li > 0 {
+					continue // absent: no source sets the key
+				}
+				for _, bs := range c28BGPSettings() {
+					for i, pools := range poolSets {
+						c28ExhaustiveOne(t, rec, layers, li, fs, bs, i, pools, &n, &supported)
 					}
-					n++
-					cls := "unsupported-pairing"
-					if out.Supported {
-						supported++
-						cls = "supported-pairing"
-					}
-					cls2 := "both-recognised"
-					if c28Effective(fs, "") == "" || c28Effective(bs, "") == "" {
-						cls2 = "absent-or-unrecognised"
-					}
-					rec.Case(out.Supported, fmt.Sprintf("%v|%v|%d", fs, bs, i), func() any {
-						return map[string]any{"felix": fs.String(), "bgp": bs.String(), "result": out.Lines}
-					}, cls, cls2)
 				}
 			}
 		}
@@ -449,12 +537,45 @@ func TestVerifC28Exhaustive(t *testing.T) {
 	rec.Extra("supported_combinations", supported)
 }
 
+func c28ExhaustiveOne(t *testing.T, rec *ev.Recorder, layers []c28Layer, li int, fs, bs c28Setting, i int, pools []c28Pool, np, nsup *int) {
+	out, bad := c28Check(layers, bs, pools, "10.0.0.0/24")
+	if bad != "" {
+		c28Fail(t, bad)
+	}
+	*np++
+	cl := []string{"unsupported-pairing"}
+	if out.Supported {
+		*nsup++
+		cl = []string{"supported-pairing"}
+	}
+	if c28Effective(fs, "") == "" || c28Effective(bs, "") == "" {
+		cl = append(cl, "absent-or-unrecognised")
+	} else {
+		cl = append(cl, "both-recognised")
+	}
+	if li > 0 {
+		cl = append(cl, "felix-layered-sources")
+		if c28Effective(fs, "") == "" {
+			cl = append(cl, "felix-unrecognised-shadowing-lower-valid")
+		}
+	}
+	for _, p := range pools {
+		if p.Disabled {
+			cl = append(cl, "disabled-pool")
+			break
+		}
+	}
+	rec.Case(out.Supported, fmt.Sprintf("%v|%d|%v|%d", fs, li, bs, i), func() any {
+		return map[string]any{"felix": fmt.Sprintf("%+v", layers), "bgp": bs.String(), "result": out.Lines}
+	}, cl...)
+}
+
 // TestVerifC28Mixed: random pool sets (random disjoint CIDRs, several pools per class, export
 // disabled or not), random local subnet, Felix value arriving from different config sources.
 func TestVerifC28Mixed(t *testing.T) {
 	ev.Quiet()
 	rec := ev.New("C28", "mixed",
-		"supported pairing (or absent/unrecognised stand-ins for its values) chosen 80% of the time, 1-6 pools with random disjoint CIDRs and modes, random IPv4 local subnet, Felix value from the global / per-node datastore, config file or environment; non-trivial = supported pairing and >=2 pool classes present; distinct = (felix, bgp, pool modes)",
+		"supported pairing (or absent/unrecognised stand-ins for its values) chosen 80% of the time, 1-6 pools with random disjoint CIDRs, modes and ownership-neutral flags (disabled, natOutgoing, assignmentMode, nodeSelector, allowedUses, disableBGPExport), random IPv4 local subnet, Felix value in any of Felix's five sources with 0-2 lower-priority sources carrying other values; non-trivial = supported pairing and >=2 pool classes present; distinct = (felix, bgp, pool modes)",
 		"IPv4 local subnet is known to confd", "Felix's IPv6 support is enabled; the deprecated VXLANEnabled/IpInIpEnabled overrides are unset")
 	defer rec.Write()
 	fset, bset := c28FelixSettings(), c28BGPSettings()
@@ -477,8 +598,25 @@ func TestVerifC28Mixed(t *testing.T) {
 			fs = rapid.SampledFrom(fset).Draw(t, "felixSetting")
 			bs = rapid.SampledFrom(bset).Draw(t, "bgpSetting")
 		}
-		src := rapid.SampledFrom([]felixconfig.Source{felixconfig.DatastoreGlobal, felixconfig.DatastorePerHost,
-			felixconfig.ConfigFile, felixconfig.EnvironmentVariable}).Draw(t, "felixSource")
+		// The Felix setting under test sits in the highest-priority source that sets the key;
+		// 0-2 lower-priority sources carry other values (any of the four, or unrecognised).
+		var layers []c28Layer
+		lowerValid := false
+		if fs.Kind == "value" {
+			top := rapid.IntRange(0, len(c28Sources)-1).Draw(t, "felixSource")
+			layers = append(layers, c28Layer{c28Sources[top], fs.Value})
+			if top > 0 {
+				nLower := rapid.IntRange(0, 2).Draw(t, "nLowerSources")
+				lower := rapid.Permutation(c28Sources[:top]).Draw(t, "lowerSources")
+				for i := 0; i < nLower && i < len(lower); i++ {
+					v := rapid.SampledFrom(append(append([]string{}, c28Values...), c28Junk[0])).Draw(t, "lowerValue")
+					layers = append(layers, c28Layer{lower[i], v})
+					if v != c28Junk[0] {
+						lowerValid = true
+					}
+				}
+			}
+		}
 		nPools := rapid.IntRange(1, 6).Draw(t, "nPools")
 		used := map[string]bool{}
 		var pools []c28Pool
@@ -497,12 +635,17 @@ func TestVerifC28Mixed(t *testing.T) {
 				continue // pools may not overlap
 			}
 			used[key] = true
-			pools = append(pools, c28Pool{CIDR: cidr, Mode: mode, DisableBGPExport: rapid.IntRange(0, 3).Draw(t, "noExport") == 0})
+			pools = append(pools, c28Pool{CIDR: cidr, Mode: mode, DisableBGPExport: rapid.IntRange(0, 3).Draw(t, "noExport") == 0,
+				Disabled:     rapid.IntRange(0, 2).Draw(t, "disabled") == 0,
+				NATOutgoing:  rapid.Bool().Draw(t, "natOutgoing"),
+				Manual:       rapid.IntRange(0, 3).Draw(t, "manual") == 0,
+				NodeSelector: rapid.SampledFrom([]string{"", "all()", "!all()", "rack == 'r1'"}).Draw(t, "nodeSelector"),
+				Uses:         rapid.SampledFrom([]string{"", "workload", "tunnel", "both"}).Draw(t, "allowedUses")})
 		}
 		localSubnet := fmt.Sprintf("172.16.%d.0/24", rapid.IntRange(0, 9).Draw(t, "localSubnet"))
 		var out c28Outcome
 		var bad string
-		c28WithNodeName(func() { out, bad = c28Check(fs, bs, src, pools, localSubnet) })
+		c28WithNodeName(func() { out, bad = c28Check(layers, bs, pools, localSubnet) })
 		if bad != "" {
 			c28Fail(t, bad)
 		}
@@ -523,9 +666,21 @@ func TestVerifC28Mixed(t *testing.T) {
 		for c := range classes {
 			cl = append(cl, "has-"+c)
 		}
+		if len(layers) > 1 {
+			cl = append(cl, "felix-layered-sources")
+			if lowerValid && c28Effective(fs, "") == "" {
+				cl = append(cl, "felix-unrecognised-shadowing-lower-valid")
+			}
+		}
+		for _, p := range pools {
+			if p.Disabled {
+				cl = append(cl, "disabled-pool")
+				break
+			}
+		}
 		sort.Strings(cl)
-		rec.Case(out.Supported && len(classes) >= 2, fmt.Sprintf("%v|%v|%v", fs, bs, modes), func() any {
-			return map[string]any{"felix": fs.String(), "bgp": bs.String(), "result": out.Lines}
+		rec.Case(out.Supported && len(classes) >= 2, fmt.Sprintf("%v|%d|%v|%v", fs, len(layers), bs, modes), func() any {
+			return map[string]any{"felix": fmt.Sprintf("%+v", layers), "bgp": bs.String(), "result": out.Lines}
 		}, cl...)
 	})
 }
